@@ -302,7 +302,7 @@ theorem dotVV_error (hid : M.Idem) (meth : Meth) (x y : List (Fl M)) (hxy : x.le
   refine ⟨dot8 x y, ?_, dot8_error hid x y hxy h⟩
   rw [dotVV_eq]; simp [dot?, hxy]
 
-/-- joint satisfiability of the hypotheses of `f64_matmul_note` and of the error theorems at `f64`'s unit roundoff:
+/-- joint satisfiability of the hypotheses of `stdmodel_matmul_note` and of the error theorems at `f64`'s unit roundoff:
 an idempotent model with `u = 2⁻⁵³` exists. -/
 example : ∃ M : FlModel, M.u = 1 / 2 ^ 53 ∧ M.Idem :=
   ⟨FlModel.bump 3 (1 / 2 ^ 53) (by norm_num) (by norm_num), rfl, FlModel.bump_idem _ _ _ _⟩
